@@ -1,8 +1,9 @@
 use crate::{GameServer, META_STATE};
 use futures_util::{StreamExt, TryStreamExt};
 use kube::runtime::watcher::Config;
+use kube::runtime::watcher::Event;
 use kube::runtime::{WatchStreamExt, watcher};
-use kube::{Api, Client};
+use kube::{Api, Client, ResourceExt};
 use passage_adapters::discovery::DiscoveryAdapter;
 use passage_adapters::{Error, Target};
 use std::fmt::{Debug, Formatter};
@@ -45,27 +46,26 @@ impl AgonesDiscoveryAdapter {
             Api::all(client.clone())
         };
 
-        // create the watch stream
-        let mut stream = watcher(servers, watch_config)
-            .default_backoff()
-            .applied_objects()
-            .boxed();
+        // create the watch stream (raw events, deletions and re-lists have to be seen as well)
+        let mut stream = watcher(servers, watch_config).default_backoff().boxed();
 
         // start listener
         let _inner = Arc::clone(&inner);
         let _token = token.clone();
         tokio::spawn(async move {
             info!("starting game server watcher");
+            // servers collected during a (re-)list, they replace the cache once the list is complete
+            let mut listed: Vec<Target> = Vec::new();
             loop {
                 // get next server update
-                let maybe_server = tokio::select! {
+                let maybe_event = tokio::select! {
                     biased;
                     _ = _token.cancelled() => break,
-                    maybe_server = stream.try_next() => maybe_server,
+                    maybe_event = stream.try_next() => maybe_event,
                 };
 
-                let server = match maybe_server {
-                    Ok(Some(server)) => server,
+                let event = match maybe_event {
+                    Ok(Some(event)) => event,
                     Ok(None) => break,
                     Err(err) => {
                         warn!(err = ?err, "error while watching game servers");
@@ -73,38 +73,77 @@ impl AgonesDiscoveryAdapter {
                     }
                 };
 
-                // map to target
-                let target: Target = match server.try_into() {
-                    Ok(target) => target,
-                    Err(err) => {
-                        warn!(err = ?err, "error while converting game server to target");
-                        continue;
+                match event {
+                    // a (re-)list starts, collect its servers separately
+                    Event::Init => listed.clear(),
+                    Event::InitApply(server) => {
+                        if let Some(target) = ready_target(server) {
+                            upsert_target(&mut listed, target);
+                        }
                     }
-                };
-
-                // if ready, replace or push
-                let mut inner = _inner.write().await;
-                let state = target.meta.get(META_STATE).cloned().unwrap_or_default();
-                if state == "Ready" || state == "Allocated" {
-                    info!(uid = target.identifier, "adding game server to cache");
-                    let found = inner.iter_mut().find(|i| i.identifier == target.identifier);
-                    match found {
-                        Some(found) => *found = target,
-                        None => inner.push(target),
+                    // the list is complete, servers that are not part of it no longer exist
+                    Event::InitDone => {
+                        info!(len = listed.len(), "replacing game server cache");
+                        *_inner.write().await = std::mem::take(&mut listed);
                     }
-                    continue;
-                }
-
-                // remove
-                info!(uid = target.identifier, "removing game server from cache");
-                let found = inner.iter().position(|i| i.identifier == target.identifier);
-                if let Some(found) = found {
-                    inner.swap_remove(found);
+                    Event::Apply(server) => {
+                        let identifier = server.name_any();
+                        let mut inner = _inner.write().await;
+                        match ready_target(server) {
+                            // if ready, replace or push
+                            Some(target) => {
+                                info!(uid = target.identifier, "adding game server to cache");
+                                upsert_target(&mut inner, target);
+                            }
+                            // not ready (or no longer usable), remove
+                            None => {
+                                info!(uid = identifier, "removing game server from cache");
+                                remove_target(&mut inner, &identifier);
+                            }
+                        }
+                    }
+                    Event::Delete(server) => {
+                        let identifier = server.name_any();
+                        info!(uid = identifier, "removing deleted game server from cache");
+                        remove_target(&mut *_inner.write().await, &identifier);
+                    }
                 }
             }
         });
 
         Ok(Self { inner, token })
+    }
+}
+
+/// Converts a game server into a target if it can currently accept players.
+fn ready_target(server: GameServer) -> Option<Target> {
+    // map to target
+    let target: Target = match server.try_into() {
+        Ok(target) => target,
+        Err(err) => {
+            warn!(err = ?err, "error while converting game server to target");
+            return None;
+        }
+    };
+
+    let state = target.meta.get(META_STATE).cloned().unwrap_or_default();
+    (state == "Ready" || state == "Allocated").then_some(target)
+}
+
+fn upsert_target(targets: &mut Vec<Target>, target: Target) {
+    let found = targets
+        .iter_mut()
+        .find(|i| i.identifier == target.identifier);
+    match found {
+        Some(found) => *found = target,
+        None => targets.push(target),
+    }
+}
+
+fn remove_target(targets: &mut Vec<Target>, identifier: &str) {
+    let found = targets.iter().position(|i| i.identifier == identifier);
+    if let Some(found) = found {
+        targets.swap_remove(found);
     }
 }
 
